@@ -482,6 +482,20 @@ class Program:
                 and f.func.id == "getattr" and len(f.args) >= 2:
             return self._reflective(fi, f, call)
 
+        if isinstance(f, ast.Name) and not (
+                m.resolve_dotted(mod, f.id) or "").startswith("builtins."):
+            # a local bound (once) to getattr(obj, "prefix" + x): the same
+            # reflective dispatch, spelled in two statements
+            binds = [n for n in walk_shallow(fi.node)
+                     if isinstance(n, ast.Assign) and len(n.targets) == 1
+                     and isinstance(n.targets[0], ast.Name)
+                     and n.targets[0].id == f.id]
+            if len(binds) == 1 and isinstance(binds[0].value, ast.Call) \
+                    and isinstance(binds[0].value.func, ast.Name) \
+                    and binds[0].value.func.id == "getattr" \
+                    and len(binds[0].value.args) >= 2:
+                return self._reflective(fi, binds[0].value, call)
+
         if isinstance(f, ast.Name):
             # nested function?
             g = fi
@@ -660,6 +674,16 @@ class Program:
                 and isinstance(namearg.left, ast.Constant) \
                 and isinstance(namearg.left.value, str):
             prefix = namearg.left.value
+        elif isinstance(namearg, ast.JoinedStr) and namearg.values \
+                and isinstance(namearg.values[0], ast.Constant) \
+                and isinstance(namearg.values[0].value, str):
+            prefix = namearg.values[0].value          # f"prefix{x}"
+        elif isinstance(namearg, ast.BinOp) and isinstance(
+                namearg.op, ast.Mod) and isinstance(
+                namearg.left, ast.Constant) and isinstance(
+                namearg.left.value, str) and "%" in namearg.left.value \
+                and namearg.left.value.index("%") > 0:
+            prefix = namearg.left.value.split("%")[0]  # "prefix%s" % x
         elif isinstance(namearg, ast.Constant) and isinstance(namearg.value,
                                                               str):
             # getattr(x, "name", default)(...)
